@@ -110,3 +110,132 @@ package service
   ensures [orders-by-namespace-then-name] (= result (or (strlt {svcs[i].ObjectMeta.Namespace} {svcs[j].ObjectMeta.Namespace})
         (and (= {svcs[i].ObjectMeta.Namespace} {svcs[j].ObjectMeta.Namespace}) (strlt {svcs[i].ObjectMeta.Name} {svcs[j].ObjectMeta.Name}))))
 @*/
+
+/*@ immutable core/v1.Service.ObjectMeta
+@*/
+
+/*@ theory servicecanon
+;; theory servicefilters filtereq sorting enumerations
+;; uses meta/v1.ObjectMeta
+(declare-fun |F!core/v1.Service!ObjectMeta| (V) |S!meta/v1.ObjectMeta|)
+; assumed: GetNamespace() / GetName() of an API object return its ObjectMeta.Namespace / ObjectMeta.Name fields
+(assert (forall ((o V)) (! (and (= (|meta/v1.ObjectMeta.Namespace| (|F!core/v1.Service!ObjectMeta| o)) (obj-ns o))
+                                (= (|meta/v1.ObjectMeta.Name| (|F!core/v1.Service!ObjectMeta| o)) (obj-name o))) :pattern ((|F!core/v1.Service!ObjectMeta| o)))))
+; selIdxs(t) / selCount(t): the positions, in increasing order, of the services of t that have a selector
+; (PodsFilter builds one child for each of them, in that order)
+(declare-fun selIdxs ((Slice V)) (Array Int Int))
+(declare-fun selCount ((Slice V)) Int)
+(define-fun enumeratesSelecting ((e (Array Int Int)) (m Int) (t (Slice V))) Bool
+  (and (>= m 0) (increasing e m)
+       (forall ((q Int)) (=> (and (<= 0 q) (< q m)) (and (<= 0 (select e q)) (< (select e q) (slen t)) (mapNonEmpty (svc-sel (select (sarr t) (select e q)))))))
+       (forall ((j Int)) (=> (and (<= 0 j) (< j (slen t)) (mapNonEmpty (svc-sel (select (sarr t) j))))
+            (exists ((q Int)) (and (<= 0 q) (< q m) (= (select e q) j)))))))
+(assert (forall ((t (Slice V))) (! (=> (>= (slen t) 0) (enumeratesSelecting (selIdxs t) (selCount t) t)) :pattern ((selCount t)))))
+; C17: the child PodsFilter builds for one service with a selector: And(NSName(namespace/""), Labels(selector))
+(declare-fun svcChild (V V) Bool)
+(assert (forall ((f V) (s V)) (! (= (svcChild f s)
+  (and (not (= f vnil)) (= (dyntype f) |ty!filter.andFilter|)
+       (let ((k (|unbox!filter.andFilter| f)))
+         (and (= (slen k) 2)
+              (let ((n (select (sarr k) 0)) (l (select (sarr k) 1)))
+                (and (not (= n vnil)) (= (dyntype n) |ty!filter.nsNameFilter|)
+                     (let ((x (|unbox!filter.nsNameFilter| n)))
+                       (and (forall ((kk NSN)) (not (select (|fdom!S!nsname.NSName!Bool| (|filter.nsNameFilter.fullset| x)) kk)))
+                            (= (slen (|filter.nsNameFilter.partials| x)) 1)
+                            (= (select (sarr (|filter.nsNameFilter.partials| x)) 0) (|mk!nsname.NSName| (obj-ns s) |str!|))))
+                     (not (= l vnil)) (= (dyntype l) |ty!*filter.selectorFilter|)
+                     (= (|F!filter.selectorFilter!selector| l) (sel-from-set (svc-sel s))))))))) :pattern ((svcChild f s)))))
+@*/
+
+/*@ lemma C17-service-children-of-the-same-service-are-built-the-same-way
+  props C17
+  theory servicecanon
+  var f : V
+  var g : V
+  var s : V
+  assume (and (svcChild f s) (svcChild g s))
+  prove (bs f g)
+@*/
+
+/*@ func types/service.PodsFilter#canonical
+  props C17
+  theory servicecanon
+  note a second view of PodsFilter for C17's order-independence clause: one child per service with a selector, built in order from THE sorted arrangement of the services
+  requires [services-valid] (forall ((j Int)) (=> (and (<= 0 j) (< j (slen {services})))
+        (and (not (= (select (sarr {services}) j) vnil)) (not (= (obj-ns (select (sarr {services}) j)) |str!|)))))
+  ghost src : (Array Int Int) := ((as const (Array Int Int)) 0)
+  at append(filters) set src := (store src (slen {filters}) {rangeindex})
+  loop 1 inv [range] (and (<= 0 (+ {rangeindex} 1)) (<= (+ {rangeindex} 1) (slen {svcs})) (= (slen {svcs}) (slen {services})))
+  loop 1 inv [svcs-valid] (forall ((j Int)) (=> (and (<= 0 j) (< j (slen {svcs})))
+        (and (not (= (select (sarr {svcs}) j) vnil)) (not (= (obj-ns (select (sarr {svcs}) j)) |str!|)))))
+  at call(Slice).after assert [sorted-by-namespace-then-name] (sortedByKey {svcs})
+  at call(Slice).after assert [same-elements-as-the-arguments] (sameElements {svcs} {services})
+  at call(Slice).after assert [distinct-keys-preserved] (=> (distinctKeys {services}) (distinctKeys {svcs}))
+  at call(Slice).after assert [same-elements-as-the-canonical-order] (sameElements {svcs} (sortedSources {services}))
+  at call(Slice).after apply SORT-sorted-sequences-with-the-same-distinct-keyed-elements-agree (a {svcs}) (b (sortedSources {services}))
+  at call(Slice).after assert [is-the-canonical-order] (=> (distinctKeys {services}) (forall ((q Int)) (=> (and (<= 0 q) (< q (slen {svcs})))
+        (= (select (sarr {svcs}) q) (select (sarr (sortedSources {services})) q)))))
+  loop 1 inv [sources-in-canonical-order] (=> (distinctKeys {services}) (forall ((q Int)) (=> (and (<= 0 q) (< q (slen {svcs})))
+        (= (select (sarr {svcs}) q) (select (sarr (sortedSources {services})) q)))))
+  ghost fidx : (Array Int Int) := ((as const (Array Int Int)) 0)
+  at append(filters) set fidx := (store fidx {rangeindex} (slen {filters}))
+  loop 1 inv [src-in-range-and-selecting] (forall ((q Int)) (=> (and (<= 0 q) (< q (slen {filters})))
+        (and (<= 0 (select src q)) (< (select src q) (+ {rangeindex} 1)) (mapNonEmpty (svc-sel (select (sarr {svcs}) (select src q)))))))
+  loop 1 inv [src-increasing] (increasing src (slen {filters}))
+  loop 1 inv [every-service-with-a-selector-seen-so-far-has-a-child] (forall ((j Int)) (=> (and (<= 0 j) (< j (+ {rangeindex} 1)) (mapNonEmpty (svc-sel (select (sarr {svcs}) j))))
+        (and (<= 0 (select fidx j)) (< (select fidx j) (slen {filters})) (= (select src (select fidx j)) j))))
+  loop 1 inv [children-built-from-the-sorted-services] (forall ((q Int)) (=> (and (<= 0 q) (< q (slen {filters})))
+        (svcChild (select (sarr {filters}) q) (select (sarr {svcs}) (select src q)))))
+  at call(And).after assert [opt:child-of-this-service] (svcChild $result {svc})
+  at call(Or) assert [src-is-increasing] (increasing src (slen {filters}))
+  at call(Or) assert [src-points-at-services-with-a-selector-in-the-canonical-order] (=> (distinctKeys {services}) (forall ((q Int)) (=> (and (<= 0 q) (< q (slen {filters})))
+        (and (<= 0 (select src q)) (< (select src q) (slen (sortedSources {services}))) (mapNonEmpty (svc-sel (select (sarr (sortedSources {services})) (select src q))))))))
+  at call(Or) assert [src-hits-every-service-with-a-selector-of-the-canonical-order] (=> (distinctKeys {services}) (forall ((j Int)) (=> (and (<= 0 j) (< j (slen (sortedSources {services}))) (mapNonEmpty (svc-sel (select (sarr (sortedSources {services})) j))))
+        (and (<= 0 (select fidx j)) (< (select fidx j) (slen {filters})) (= (select src (select fidx j)) j)))))
+  at call(Or) assert [src-is-an-enumeration-of-the-canonical-order] (=> (distinctKeys {services}) (enumeratesSelecting src (slen {filters}) (sortedSources {services})))
+  at call(Or) assert [canonical-order-has-a-length] (and (>= (slen {services}) 0) (>= (slen (sortedSources {services})) 0))
+  at call(Or) assert [same-range-as-the-canonical-enumeration] (=> (distinctKeys {services}) (sameRange src (slen {filters}) (selIdxs (sortedSources {services})) (selCount (sortedSources {services}))))
+  at call(Or) apply ENUM-increasing-enumerations-of-the-same-set-agree (e1 src) (n1 (slen {filters})) (e2 (selIdxs (sortedSources {services}))) (n2 (selCount (sortedSources {services})))
+  at call(Or) apply ENUM-increasing-enumerations-of-the-same-set-have-the-same-length (e1 src) (n1 (slen {filters})) (e2 (selIdxs (sortedSources {services}))) (n2 (selCount (sortedSources {services})))
+  at call(Or) assert [one-child-per-service-with-a-selector] (=> (distinctKeys {services}) (= (slen {filters}) (selCount (sortedSources {services}))))
+  at call(Or) assert [src-is-the-canonical-enumeration] (=> (distinctKeys {services}) (forall ((q Int)) (=> (and (<= 0 q) (< q (slen {filters})))
+        (= (select src q) (select (selIdxs (sortedSources {services})) q)))))
+  at call(Or) assert [children-of-the-canonical-enumeration] (=> (distinctKeys {services}) (forall ((q Int)) (=> (and (<= 0 q) (< q (slen {filters})))
+        (svcChild (select (sarr {filters}) q) (select (sarr (sortedSources {services})) (select (selIdxs (sortedSources {services})) q))))))
+  ensures [canonical-children] (=> (distinctKeys {services}) (let ((kids (|unbox!filter.orFilter| result)) (t (sortedSources {services})))
+        (and (= (slen kids) (selCount t))
+             (forall ((q Int)) (=> (and (<= 0 q) (< q (slen kids))) (svcChild (select (sarr kids) q) (select (sarr t) (select (selIdxs t) q))))))))
+  ensures [is-or] (and (not (= result vnil)) (= (dyntype result) |ty!filter.orFilter|))
+@*/
+
+/*@ lemma C17-order-independent-service-PodsFilter
+  props C17
+  theory servicecanon
+  note PodsFilter compares equal whatever the order of its services (pairwise distinct namespace/name): both calls build one child per service with a selector, in the order of the one sorted arrangement
+  var xs : (Slice V)
+  var ys : (Slice V)
+  assume (and (>= (slen xs) 0) (= (slen xs) (slen ys)))
+  assume [same-services-in-any-order] (sameElements xs ys)
+  assume [distinct-namespace-name] (and (distinctKeys xs) (distinctKeys ys))
+  call r1 := types/service.PodsFilter#canonical xs
+  call r2 := types/service.PodsFilter#canonical ys
+  apply SORT-sorted-sequences-with-the-same-distinct-keyed-elements-agree (a (sortedSources xs)) (b (sortedSources ys))
+  prove [same-canonical-order] (forall ((q Int)) (=> (and (<= 0 q) (< q (slen xs))) (= (select (sarr (sortedSources xs)) q) (select (sarr (sortedSources ys)) q))))
+  prove [same-enumeration-hypotheses] (and (enumeratesSelecting (selIdxs (sortedSources xs)) (selCount (sortedSources xs)) (sortedSources xs))
+        (enumeratesSelecting (selIdxs (sortedSources ys)) (selCount (sortedSources ys)) (sortedSources xs)))
+  prove [same-range] (sameRange (selIdxs (sortedSources xs)) (selCount (sortedSources xs)) (selIdxs (sortedSources ys)) (selCount (sortedSources ys)))
+  apply ENUM-increasing-enumerations-of-the-same-set-agree (e1 (selIdxs (sortedSources xs))) (n1 (selCount (sortedSources xs))) (e2 (selIdxs (sortedSources ys))) (n2 (selCount (sortedSources ys)))
+  apply ENUM-increasing-enumerations-of-the-same-set-have-the-same-length (e1 (selIdxs (sortedSources xs))) (n1 (selCount (sortedSources xs))) (e2 (selIdxs (sortedSources ys))) (n2 (selCount (sortedSources ys)))
+  prove [same-number-of-children] (= (selCount (sortedSources xs)) (selCount (sortedSources ys)))
+  prove [same-positions] (forall ((q Int)) (=> (and (<= 0 q) (< q (selCount (sortedSources xs)))) (= (select (selIdxs (sortedSources xs)) q) (select (selIdxs (sortedSources ys)) q))))
+  prove [children-of-the-same-services] (forall ((q Int)) (=> (and (<= 0 q) (< q (selCount (sortedSources xs))))
+        (and (svcChild (select (sarr (|unbox!filter.orFilter| r1)) q) (select (sarr (sortedSources xs)) (select (selIdxs (sortedSources xs)) q)))
+             (svcChild (select (sarr (|unbox!filter.orFilter| r2)) q) (select (sarr (sortedSources xs)) (select (selIdxs (sortedSources xs)) q))))))
+  apply C17-service-children-of-the-same-service-are-built-the-same-way
+  prove [children-pairwise-built-the-same-way] (forall ((q Int)) (=> (and (<= 0 q) (< q (selCount (sortedSources xs))))
+        (bs (select (sarr (|unbox!filter.orFilter| r1)) q) (select (sarr (|unbox!filter.orFilter| r2)) q))))
+  prove [same-children-lists] (bsList (|unbox!filter.orFilter| r1) (|unbox!filter.orFilter| r2))
+  call eq := filter.FiltersEqual r1 r2
+  prove [built-the-same-way] (bs r1 r2)
+  prove [compare-equal] eq
+@*/
